@@ -198,6 +198,10 @@ class ScaledProblem(Problem):
 
         jac = jac_orig.tocoo(copy=True)
 
+        if not np.issubdtype(jac.dtype, np.floating):
+            # scaled entries of integer matrices would be truncated
+            jac = jac.astype(float)
+
         jac_row = jac.row
         jac_col = jac.col
         jac_data = jac.data
@@ -218,6 +222,9 @@ class ScaledProblem(Problem):
         hess_orig = self.problem.lag_hess(x_orig, y_orig)
 
         hess = hess_orig.tocoo(copy=True)
+
+        if not np.issubdtype(hess.dtype, np.floating):
+            hess = hess.astype(float)
 
         hess_row = hess.row
         hess_col = hess.col
